@@ -13,27 +13,31 @@ formula over ALL the booleans, so every graph that agrees with the path on the i
 import itertools, re, z3
 from mirsym.harness import *
 from mirsym.engine import NONE, SOME, It, UNIT
-from props.graphstub import SymGraph, GP, plist, subset
+from props.graphstub import SymGraph, GP, plist, subset, REF_CAST_OVER
 
 ID = 'C18'
 CRATES = ['jj-lib']
 NATIVE = None
 NATIVE_CONFIRM = False
 BOUNDS = {
-    'quick': 'every commit DAG on <=4 positions (any parent sets incl. octopus merges, parents listed ascending or descending), '
+    'quick': 'ABSTRACT SEGMENTS: every commit DAG on <=4 positions (any parent sets incl. octopus merges, parents listed ascending or descending), '
              'stored in one segment or split over two stacked segments at every split point: is_ancestor_pos for every pair, heads_pos for every '
              'candidate subset, common_ancestors_pos for all pairs of lists of <=2 positions (n<=3; lists of <=1 position for n=4), all_heads_pos, AncestorsBitSet add_head/visit_until/contains '
              'for every head subset; is_ancestor_pos additionally on 5 positions and on the sparse position sets {62,63,64,65} and {1,62,..,65} '
-             '(crossing the 64-bit bitset word boundary); AncestorsBitSet on {62,63,64,65}',
-    'thorough': 'every query on <=6 positions (7 for is_ancestor_pos, 5 for common_ancestors_pos), is_ancestor_pos on {0,1,62,..,65}, AncestorsBitSet on all three sparse sets, three stacked segments',
+             '(crossing the 64-bit bitset word boundary); AncestorsBitSet on {62,63,64,65}; heads_pos on 5 positions for every 3-element candidate set. '
+             'REAL SEGMENTS: 2 commits with symbolic 1-byte commit ids (distinct) and change ids (may coincide), every parent list, added with add_commit_data, serialized, reloaded: '
+             'every accessor of the mutable and of the reloaded segment (generation, parents, ids, commit-id lookup of an arbitrary id, change-id lookup); the same for a second segment '
+             'stacked on a reloaded 1-commit segment; a fixed 4-commit shape with an octopus merge of 3 parents (parent overflow table) with ascending commit ids and arbitrary change ids (change overflow table)',
+    'thorough': 'abstract segments: every query on <=6 positions (7 for is_ancestor_pos, 5 for common_ancestors_pos), is_ancestor_pos on {0,1,62,..,65}, AncestorsBitSet on all three sparse sets, three stacked segments; '
+                'real segments: 3 commits round trip, 2+1 commits stacked',
 }
 ASSUMPTIONS = [
-    'index segments are abstract: CommitIndexSegment::{num_parent_commits, num_local_commits, parent_file, generation_number, parent_positions} '
-    'are harness stubs answering from the symbolic graph (the real implementations in mutable.rs/readonly.rs are table accessors and the on-disk '
-    'encoding; they, segment squashing, merge_in and reload are NOT covered)',
-    'representation invariant assumed of the segments: parent positions are smaller than the commit position, generation numbers are '
-    '1 + max over the parents (0 for roots) - this is what MutableCommitIndexSegment::add_commit_data computes',
-    'BinaryHeap is a native model (max-first observable behaviour); change-id lookups and commit-id <-> position maps are not covered',
+    'graph-query jobs: index segments are abstract - CommitIndexSegment::{num_parent_commits, num_local_commits, parent_file, generation_number, parent_positions} '
+    'are harness stubs answering from the symbolic graph, with the representation invariant: parent positions are smaller than the commit position, generation numbers are '
+    '1 + max over the parents (0 for roots). The seg-* jobs show on small instances that the real segments (add_commit_data, serialization, reload) establish exactly this invariant',
+    'seg-* jobs: the segment file is the byte buffer that was written (file system, file names and content hashing outside); squashing (maybe_squash_with_ancestors), merge_in of '
+    'divergent indexes and the DefaultIndexStore bookkeeping are NOT covered',
+    'BinaryHeap/BTreeMap are native models; resolve_commit_id_prefix / neighbour lookups belong to C20 and are not covered here',
 ]
 BUDGET = {'quick': 900, 'thorough': 3000}
 F = 'lib/src/default_index/composite.rs'
@@ -66,6 +70,17 @@ def jobs(tier):
         out.append(dict(name=f'anc-sparse{k}', what='anc', pos=sp, segs=[], order='asc', rung=0 if k <= 4 else k, weight=3 ** k, split=('enumerate', 6) if k >= 5 else None))
         if k <= 4 or not q:
             out.append(dict(name=f'bitset-sparse{k}', what='bitset', pos=sp, segs=[], order='desc', rung=0 if k <= 4 else k, weight=4 ** k, split=('enumerate', 6)))
+    if q:
+        # heads_pos over 5 positions restricted to candidate sets of exactly 3 commits (the smallest shape in which the generation cut-off of
+        # one candidate can hide a grand-parent relation between two others; all candidate subsets are in the thorough tier)
+        out.append(dict(name='heads-n5-cand3', what='heads', cand_size=3, pos=list(range(5)), segs=[2], order='asc', rung=5, weight=4 ** 5, split=('enumerate', 6)))
+    # real segments: MutableCommitIndexSegment built by add_commit_data, serialized, reloaded as ReadonlyCommitIndexSegment (incl. overflow tables), stacked
+    for k in ((2,) if q else (2, 3)):
+        out.append(dict(name=f'seg-roundtrip-k{k}', what='seg', k=k, stacked=False, rung=0 if k <= 2 else k, weight=20 ** k, split=('enumerate', 8)))
+    for k in ((1,) if q else (1, 2)):
+        out.append(dict(name=f'seg-stacked-k{k}', what='seg', k=k, stacked=True, rung=0 if k <= 1 else k + 2, weight=30 ** k, split=('enumerate', 8)))
+    # the parent overflow table needs a commit with >= 3 parents, i.e. 4 commits: fixed shape (root, two children, octopus merge of all three), commit ids ascending
+    out.append(dict(name='seg-octopus', what='seg', k=4, stacked=False, fixed_parents=[[], [0], [0], [0, 1, 2]], ascending_ids=True, rung=0, weight=500, split=('enumerate', 8)))
     if not q:
         out.append(dict(name='anc-n7', what='anc', pos=list(range(7)), segs=[3], order='asc', rung=7, weight=3 ** 7, split=('enumerate', 6)))
         out.append(dict(name='anc-n6-split2_4', what='anc', pos=list(range(6)), segs=[2, 4], order='asc', rung=6, weight=3 ** 6, split=('enumerate', 6)))
@@ -73,6 +88,7 @@ def jobs(tier):
     return out
 
 def run_job(ix, job, tier):
+    if job['what'] == 'seg': return job_seg(ix, job)
     P = job['pos']; n = len(P); cuts = job['segs']; what = job['what']
     G = SymGraph(P, cuts, job['order']); par, gen, reach, over, index = G.par, G.gen, G.reach, G.over, G.index
     is_anc = ix.find_method(F, 'CompositeCommitIndex', 'is_ancestor_pos'); heads_pos = ix.find_method(F, 'CompositeCommitIndex', 'heads_pos')
@@ -90,7 +106,9 @@ def run_job(ix, job, tier):
             yield f'is_ancestor_pos({a},{d}) == reachability of {a} from {d} in the commit graph', (reach[d, a] if r is True else z3.Not(reach[d, a]) if r is False else False)
     elif what == 'heads':
         def run(e):
-            cand = subset(e, list(reversed(P)))
+            if job.get('cand_size'):
+                combos = list(itertools.combinations(list(reversed(P)), job['cand_size'])); cand = list(combos[e.choose(len(combos))])
+            else: cand = subset(e, list(reversed(P)))
             return cand, plist(e.call_mir(heads_pos, [index, Vec([GP(c) for c in cand], 'Vec')]))
         def obligations(kind, out, pc, e):
             cand, r = out
@@ -141,6 +159,98 @@ def run_job(ix, job, tier):
                     anc = zor([reach[h, q] for h in hs])
                     yield f'contains({q}){tag} == {q} is an ancestor of some head', (anc if r is True else z3.Not(anc) if r is False else False)
     return explore_job(ix, job['name'], run, obligations, overrides=over, deadline=job.get('deadline'), split=job.get('split'))
+
+FM = 'lib/src/default_index/mutable.rs'
+FR = 'lib/src/default_index/readonly.rs'
+
+def job_seg(ix, job):
+    """k commits with symbolic 1-byte commit ids (pairwise distinct) and symbolic 1-byte change ids (may coincide) are added to a real
+    MutableCommitIndexSegment with every choice of parent lists (any subset of the earlier commits, so 3+ parents reach the overflow
+    table); the segment is serialized and reloaded; every accessor of the reloaded segment must agree with what was added.
+    stacked: a second mutable segment on top of the reloaded one gets one more commit, is serialized and reloaded with its parent."""
+    k = job['k']; stacked = job['stacked']
+    full = ix.find_method(FM, 'MutableCommitIndexSegment', 'full'); incr = ix.find_method(FM, 'MutableCommitIndexSegment', 'incremental')
+    add = ix.find_method(FM, 'MutableCommitIndexSegment', 'add_commit_data'); ser = ix.find_method(FM, 'MutableCommitIndexSegment', 'serialize_local_entries')
+    load = ix.find_method(FR, 'ReadonlyCommitIndexSegment', 'load_with_parent_file')
+    total = k + (1 if stacked else 0)
+    cids = [byte(f'cid{i}') for i in range(total)]; chg = [byte(f'chg{i}') for i in range(total)]; q = byte('q')
+    pre = zand([a != b for a, b in itertools.combinations(cids, 2)])
+    if job.get('ascending_ids'): pre = zand([z3.ULT(a, b) for a, b in zip(cids, cids[1:])])
+    fixed = job.get('fixed_parents')
+    def CIDv(b): return Agg([Vec([b], 'Vec')], 'CommitId')
+    def CHGv(b): return Agg([Vec([b], 'Vec')], 'ChangeId')
+    lengths = lambda: mk_struct(ix, FR, 'FieldLengths', commit_id=1, change_id=1)
+    T = 'CommitIndexSegment'
+    def acc(e, seg, meth, *args, rty='ReadonlyCommitIndexSegment'):
+        return e.call(f'<{rty} as {T}>::{meth}', [seg] + list(args))
+    def LP(i): return Agg([i], 'LocalCommitPosition')
+    def observe(e, seg, rty, lo, hi):
+        """everything the index can be asked about the local commits lo..hi of `seg`"""
+        o = {}
+        for g in range(lo, hi):
+            lp = LP(g - lo)
+            o['gen', g] = acc(e, seg, 'generation_number', lp, rty=rty)
+            o['parents', g] = [x.f[0] for x in deref(acc(e, seg, 'parent_positions', lp, rty=rty)).l]
+            o['nparents', g] = acc(e, seg, 'num_parents', lp, rty=rty)
+            o['cid', g] = deref(acc(e, seg, 'commit_id', lp, rty=rty).f[0]).l[0]
+            o['chg', g] = deref(acc(e, seg, 'change_id', lp, rty=rty).f[0]).l[0]
+            pfx = mk_struct(ix, 'lib/src/object_id.rs', 'HexPrefix', min_prefix_bytes=Vec([chg[g]], 'Vec'), has_odd_byte=False)
+            rc = acc(e, seg, 'resolve_change_id_prefix', Ref([pfx], 0), rty=rty)
+            o['chgpos', g] = (rc.v, [x.f[0] for x in deref(rc.f[0].f[1]).l] if rc.v == 'SingleMatch' else None)
+        r = acc(e, seg, 'commit_id_to_pos', Ref([CIDv(q)], 0), rty=rty)
+        o['lookup'] = None if r.v == 'None' else r.f[0].f[0]
+        return o
+    def run(e):
+        m = e.call_mir(full, [lengths()])
+        parents = {}
+        for i in range(k):
+            if fixed is not None: ps = list(fixed[i])
+            else:
+                ps = [j for j in range(i) if e.choose(2) == 1]
+                if len(ps) >= 2 and e.choose(2) == 1: ps = list(reversed(ps))
+            parents[i] = ps
+            e.call_mir(add, [Ref([m], 0), CIDv(cids[i]), CHGv(chg[i]), SliceRef([CIDv(cids[j]) for j in ps])])
+        om = observe(e, Ref([m], 0), 'MutableCommitIndexSegment', 0, k)
+        buf = Vec([], 'Vec'); e.call_mir(ser, [Ref([m], 0), Ref([buf], 0)])
+        rd = Ref([SliceRef(list(buf.l))], 0)
+        r = e.call_mir(load, [rd, Agg([Vec([1], 'Vec')], 'CommitIndexSegmentId'), NONE(), lengths()])
+        if r.v != 'Ok': raise Panic('reload of the serialized segment failed')
+        ro = r.f[0]                                    # Arc<ReadonlyCommitIndexSegment>
+        oro = observe(e, ro, 'ReadonlyCommitIndexSegment', 0, k)
+        out = dict(parents=parents, mutable=om, readonly=oro, k=k)
+        if stacked:
+            m2 = e.call_mir(incr, [ro])
+            ps = [j for j in range(k) if e.choose(2) == 1]; parents[k] = ps
+            e.call_mir(add, [Ref([m2], 0), CIDv(cids[k]), CHGv(chg[k]), SliceRef([CIDv(cids[j]) for j in ps])])
+            out['mutable2'] = observe(e, Ref([m2], 0), 'MutableCommitIndexSegment', k, k + 1)
+            buf2 = Vec([], 'Vec'); e.call_mir(ser, [Ref([m2], 0), Ref([buf2], 0)])
+            r2 = e.call_mir(load, [Ref([SliceRef(list(buf2.l))], 0), Agg([Vec([2], 'Vec')], 'CommitIndexSegmentId'), SOME(ro), lengths()])
+            if r2.v != 'Ok': raise Panic('reload of the stacked segment failed')
+            out['readonly2'] = observe(e, r2.f[0], 'ReadonlyCommitIndexSegment', k, k + 1)
+        return out
+    def obligations(kind, out, pc, e):
+        parents = out['parents']
+        gen = {}
+        for i in sorted(parents): gen[i] = 0 if not parents[i] else 1 + max(gen[j] for j in parents[i])
+        def same(a, b): return (a == b) if isinstance(a, (int, bool)) and isinstance(b, (int, bool)) else a == b
+        for tag, lo, hi in [('mutable', 0, out['k']), ('readonly', 0, out['k'])] + ([('mutable2', out['k'], out['k'] + 1), ('readonly2', out['k'], out['k'] + 1)] if 'mutable2' in out else []):
+            o = out[tag]
+            for g in range(lo, hi):
+                yield f'{tag}: generation number of commit {g} is 1 + max over its parents', same(o['gen', g], gen[g])
+                yield f'{tag}: parents of commit {g} are the positions of the given parent ids, in order', (o['parents', g] == parents[g] and o['nparents', g] == len(parents[g]))
+                yield f'{tag}: commit id of commit {g}', same(o['cid', g], cids[g])
+                yield f'{tag}: change id of commit {g}', same(o['chg', g], chg[g])
+                v, poss = o['chgpos', g]
+                yield f'{tag}: the full change id of commit {g} resolves to one change', v == 'SingleMatch'
+                if poss is not None:
+                    yield f'{tag}: positions of the change of commit {g} are ascending local positions', all(isinstance(x, int) for x in poss) and all(x < y for x, y in zip(poss, poss[1:])) and all(0 <= x < hi - lo for x in poss)
+                    for j in range(lo, hi):
+                        yield f'{tag}: commit {j} is listed under the change id of commit {g} iff it has that change id', ((chg[j] == chg[g]) if (j - lo) in poss else (chg[j] != chg[g]))
+            lk = o['lookup']
+            if lk is None: yield f'{tag}: an id that is not found is none of the local ids', zand([q != cids[g] for g in range(lo, hi)])
+            else: yield f'{tag}: commit_id_to_pos finds the local position of the id', (same(q, cids[lo + lk]) if isinstance(lk, int) and 0 <= lk < hi - lo else False)
+    def sample(kind, out, pc): return dict(job=job['name'], parents=str(out['parents']), readonly=str({str(k_): str(v) for k_, v in out['readonly'].items()})[:300], path_condition=[str(c)[:60] for c in pc[:8]])
+    return explore_job(ix, job['name'], run, obligations, overrides=list(REF_CAST_OVER), pre=pre, sample=sample, deadline=job.get('deadline'), split=job.get('split'))
 
 def compare_native(case, native):
     return True, ''
